@@ -3,6 +3,7 @@ package eval
 import (
 	"bytes"
 	"math"
+	"strconv"
 	"strings"
 
 	"fortio.org/log"
@@ -213,6 +214,9 @@ func (s *State) evalInternal(node any) object.Object { //nolint:funlen,gocognit,
 		case token.INCR, token.DECR:
 			return s.evalPrefixIncrDecr(node.Type(), node.Right)
 		default:
+			if node.Type() == token.MINUS && isMinInt64Literal(node.Right) {
+				return object.Integer{Value: math.MinInt64}
+			}
 			right := s.Eval(node.Right)
 			if right.Type() == object.ERROR {
 				return right
@@ -1153,6 +1157,18 @@ func (s *State) evalStatements(stmts []ast.Node) object.Object {
 		}
 	}
 	return result
+}
+
+// isMinInt64Literal is true for the integer literal 9223372036854775808: alone it does not
+// fit an int64 and the parser made it a float, but negated it is the smallest integer (and is how that
+// integer prints), so -9223372036854775808 must stay an integer.
+func isMinInt64Literal(node ast.Node) bool {
+	fl, ok := node.(*ast.FloatLiteral)
+	if !ok || fl.Type() != token.INT {
+		return false
+	}
+	v, err := strconv.ParseInt("-"+fl.Literal(), 0, 64)
+	return err == nil && v == math.MinInt64
 }
 
 func (s *State) evalPrefixExpression(operator token.Type, right object.Object) object.Object {
